@@ -38,7 +38,7 @@ prop("C10",
   level_note="Lists come from a structured pool of ~40 words; map iteration order is covered by repetition only.",
   technique="property-based testing (rapid) with exhaustive index read-out per generated list against a reference model")
 
-prop("C11",
+prop("C11", fuzz={"targets": ["FuzzC11"], "seconds": 90},
   shards_quick=8, shards_thorough=16,
   rule="(a) passwords generated by rapid-drawn character and wordlist recipes under scripted random tapes (non-ASCII alphabets, words, separators, empty separators, words of 255/256+ characters); (b) arbitrary (value,type) sequences built through the public full-index constructor, token lengths biased to 1,2,127-129,254,255 and to multi-byte characters, type patterns all-atom / alternating / S-A-S / random / undocumented type bytes. Oracle: MakeIndices succeeds for 1..255-character tokens, Tokenize(String(), index, entropy) returns identical values, types and entropy bits, index length obeys the documented size law (either size accepted for shapes the sentence leaves open); >255-character tokens: error or still-exact round trip. Non-trivial = a multi-byte token, a token >= 128 characters, or a sequence needing a full index; distinct = distinct token sequences.",
   assumptions=["a character is one UTF-8 sequence (utf8.DecodeRuneInString)"],
@@ -46,7 +46,7 @@ prop("C11",
   level_note="Token sequences with more than 8 tokens come only from generated recipes (up to 12 atoms + separators). Native fuzzing is thorough-tier only.",
   technique="property-based testing (rapid) round-trip + size-law oracle; go native fuzzing in the thorough tier")
 
-prop("C12",
+prop("C12", fuzz={"targets": ["FuzzC12"], "seconds": 90},
   shards_quick=8, shards_thorough=16,
   rule="rapid-generated (string, index, entropy) triples: strings incl. empty, invalid UTF-8 and multi-byte; index = kind byte 0..255 (weighted to 0-3) + bodies of every length/parity with lengths biased to sum to the character count -1/0/+1, 255s, truncated full indices. Oracle = reference decoder written from the documented format: never a panic; nil error only with exactly the tokens the index specifies (consecutive slices, types, entropy bits); empty index, unknown kind, dangling half pair, length past the string must be errors. Non-trivial = kind 1-3 with >= 2 body bytes, or a malformed index; distinct = distinct (string, index).",
   assumptions=["a character is one UTF-8 sequence; an invalid byte is a character of its own"],
